@@ -3,11 +3,16 @@ FNS = ['fiber_context_init', 'fiber_context_init_from_thread', 'fiber_context_de
 WEAVE = []   # woven per strategy below (the function set differs with the #ifdefs)
 STACK = '-DFIBER_STACK_MALLOC'
 # split_rmw off: a context under construction / destruction is private to its creator (no interference to model)
-WEAVE = [dict(file='src/fiber_context.c', fns=FNS, cflags=['-DFIBER_STACK_MALLOC'], split_rmw=False)]
+WEAVE = [dict(file='src/fiber_context.c', fns=FNS, cflags=['-DFIBER_STACK_MALLOC'], split_rmw=False),
+         dict(file='src/fiber.c', fns=['fiber_create_no_sched', 'fiber_create_from_thread'], cflags=['-DFIBER_STACK_MALLOC'], split_rmw=False)]
 GROUPS = [
     dict(name='init_malloc', tu='context.c', harness='h_init', mode='H', stack='-DFIBER_STACK_MALLOC', functions=['fiber_context_init', 'fiber_context_destroy'], bounded=True, unwind=2,
          bound='stack sizes 1024..1039 (every residue mod 16), every malloc alignment; the arithmetic lemma covers all sizes and base addresses', timeout=600),
+    dict(name='init_mmap', tu='context.c', harness='h_init', mode='H', stack='-DFIBER_STACK_MMAP', functions=['fiber_context_init', 'fiber_context_destroy'], bounded=True, unwind=2,
+         bound='stack sizes 1024..1039, page size 256 (the stack object must stay small for the solver); the sizing arithmetic for page size 4096 is lemma_page_rounding', timeout=600),
     dict(name='thread_context', tu='context.c', harness='h_thread_context', mode='H', stack='-DFIBER_STACK_MALLOC', functions=['fiber_context_init_from_thread', 'fiber_context_destroy'], unwind=2, exact_unwind=True),
+    dict(name='create', tu='create.c', harness='h_create', mode='H', stack='-DFIBER_STACK_MALLOC', functions=['fiber_create_no_sched'], unwind=2, exact_unwind=True),
+    dict(name='create_from_thread', tu='create.c', harness='h_create_from_thread', mode='H', stack='-DFIBER_STACK_MALLOC', functions=['fiber_create_from_thread'], unwind=2, exact_unwind=True),
     dict(name='lemma_frame_arith', tu='context.c', harness='lemma_frame_arith', mode='H', stack='-DFIBER_STACK_MALLOC', cls='lemma', functions=[]),
     dict(name='lemma_page_rounding', tu='context.c', harness='lemma_page_rounding', mode='H', stack='-DFIBER_STACK_MMAP', cls='lemma', functions=['fiber_round_to_page_size'], cbmc_flags=['--sat-solver', 'cadical'], timeout=300, bounded=True, bound='requests up to 2^32 bytes'),
 ]
@@ -34,7 +39,8 @@ def static_facts(repo, scratch):
     fact('asm-memory-clobber', '"memory"' in sec[sec.find('__asm__'):], 'the asm statement carries a memory clobber')
     return facts
 TRUSTED = ['fiber_context_swap (inline asm): executing it preserves callee-saved registers, stack pointer and stack contents - TRUSTED; only its frame constants are linted against the proven layout',
-           '__splitstack_* (libgcc) for the split-stack strategy: not covered (the pinned build uses it; malloc and mmap strategies are verified)']
-ASSUMPTIONS = ['mmap strategy: only the page-rounding arithmetic is checked (bounded); its frame layout code is the same fiber_context_init text proved for malloc',
+           '__splitstack_* (libgcc) for the split-stack strategy: not covered (the pinned build uses it; malloc and mmap strategies are verified)',
+           'fiber_context_init / fiber_context_destroy inside create.c: by the contract proved in context.c (a failed init has released its own stack; destroy releases a live context once); fiber_destroy is under contract in C01 (maintenance)']
+ASSUMPTIONS = ['mmap strategy: fiber_context_init / destroy verified against an abstract mmap / mprotect / munmap with page size 256 (init_mmap, bounded: the real 4096 puts the byte-level stack object out of the solver\'s reach); the sizing arithmetic for page size 4096 is lemma_page_rounding',
                'stack_size >= FIBER_MIN_STACK_SIZE (documented minimum; nothing enforces it - below it the frame would not fit)',
                'i386 and ucontext back ends not covered (not built by the pinned configuration)']
